@@ -109,7 +109,7 @@ def c12_3(cx):
     nx = cx.one_call(v, r"^std::iter::Iterator::next$", "next head")
     va = Cmp(r"@Final\.verified_at$|Final.*verified_at", "==", r"^\$4$", desc="head.verified_at == memo.verified_at")
     it = Cmp(r"@Final\.iteration$|Final.*iteration", "==", r"AtomicIterationStamp::load\(", desc="head iteration == recorded iteration")
-    fin = VariantIn(r"and_then\(|provisional_status", {"Final"}, desc="head status is Final")
+    fin = VariantIn(r"and_then\(.*\)@Some\.0$|provisional_status\(.*\)@Some\.0$", {"Final"}, desc="head status is Final")
     edges = set()
     # going round the loop again (reaching `next` from after a `next`) requires Final + both equalities
     start = nx.node()["t"]
